@@ -164,8 +164,10 @@ func (s *c18State) check(t *mc.Tr, o c18Op) {
 	eps := 1e-9 * math.Max(1, math.Abs(s.max))
 	switch s.k.fold {
 	case "min":
-		if s.pureAdds && g != s.min {
-			t.Fail(name+"/not-minimum", "Get() = %v, minimum of the %d samples since reset is %v", g, s.n, s.min)
+		// (an Update result counts as a sample: the alphabet's update functions never raise the value,
+		// so the stored value stays the minimum of everything injected since the reset)
+		if g != s.min {
+			t.Fail(name+"/not-minimum", "Get() = %v, minimum of the %d samples (and Update results) since reset is %v", g, s.n, s.min)
 		}
 	case "last":
 		if g != s.last {
